@@ -79,7 +79,8 @@ def gen_C02(rnd, n, tier):
         g = G(rnd, autovar=(i % 4 == 0))
         c = g.cond(0, maxd=rnd.choice([1, 2, 3, 3, 4] if tier == "quick" else [2, 3, 4, 5]))
         form = rnd.choice(["if", "if", "ifelse", "while", "do", "elif", "iflast", "chain"])
-        if form == "if": body = [("if", [(c, [("cmd", "yes", "yes")])], None), ("cmd", "after", "after")]
+        if form == "if" and i % 5 == 0: body = [("if", [(c, [("cmd", "call(Common_Reward)", "call Common_Reward")])], None), ("cmd", "after", "after")]     # a body that is one call
+        elif form == "if": body = [("if", [(c, [("cmd", "yes", "yes")])], None), ("cmd", "after", "after")]
         elif form == "iflast": body = [("cmd", "before", "before"), ("if", [(c, [("cmd", "yes", "yes")])], None)]   # a false condition returns
         elif form == "ifelse": body = [("if", [(c, [("cmd", "yes", "yes")])], [("cmd", "no", "no")])]
         elif form == "elif":
